@@ -124,7 +124,7 @@ def c15(tier, seed):
         'allocator: blocks are filled with 0xDD junk, never zero; ledger detects unknown, repeated and NULL frees'])
 
 def c18(tier, seed):
-    runs = [Run('e1_bfs', 'asan', ['inject']), Run('e2_tape', 'asan', []), Run('e1_bfs', 'asan', ['api', '2']), Run('e1_bfs', 'asan', ['tables', '2']), Run('e2_crypt', 'asan', [])]     # e2_crypt: the normaliser is the injected one for every kind of password
+    runs = [Run('e1_bfs', 'asan', ['inject']), Run('e2_tape', 'asan', []), Run('e1_bfs', 'asan', ['api', '2']), Run('e1_bfs', 'asan', ['tables', '2']), Run('e2_crypt', 'asan', []), Run('e3_sched', 'tsanrt', ['only', '10'], label='e3_sched[tsanrt] H10: the dependencies injected on the main thread are the ones every worker thread gets')]     # e2_crypt: the normaliser is the injected one for every kind of password
     def audit(results):
         d = build.lib_dir('plain')
         und = [l.split()[-1] for l in open(d + '/undefined.txt') if l.strip()]
@@ -134,7 +134,7 @@ def c18(tier, seed):
         return [{'key': 'c18:link:%s' % u, 'replay': '', 'msg': 'the library references the external symbol %s, which is not an injected dependency nor one of the permitted libc helpers' % u} for u in bad]
     def cov(results):
         c = e1_cov(results); c['link_audit'] = getattr(audit, 'info', {}); return c
-    return check('C18', tier, seed, runs, keyfilter=pref('c18:', 'harness:'), post=audit, extra_cov=cov, assumptions=ASSUME_COMMON + [
+    return check('C18', tier, seed, runs, keyfilter=pref('c18:', 'harness:', 'c20:not-serial'), post=audit, extra_cov=cov, assumptions=ASSUME_COMMON + [
         'link audit: the undefined symbols of the merged library object (plain build) must be a subset of {malloc, free, time, mem*/str* helpers, bsearch, assert/stack-protector helpers}; malloc/free/time are redirected to counting wrappers'])
 
 def c09(tier, seed):
